@@ -48,6 +48,8 @@ def main():
         ddir = os.path.join(wt, meta["demo_dir"].lstrip("./"))
         shutil.copy(os.path.join(src, "demo_test.go"), os.path.join(ddir, "zz_seed_demo_test.go"))
         run = meta.get("demo_run") or "go test -vet=off -count=1 -run TestSeedDemo ./%s/" % meta["demo_dir"]
+        run = run.split("   ")[0].split(" (")[0].split(" #")[0].strip()  # some metas append prose to the command
+        meta["demo_run"] = run
         r1 = sh(run, cwd=wt)
         if r1.returncode == 0:
             print("demonstration PASSES with the change (should fail):\n", r1.stdout[-800:])
